@@ -119,7 +119,7 @@ static int sample_left;
 static char sample_buf[4096];
 static int sample_len;
 static int dead_fd = -1, reg_file_fd = -1;
-static int g_nosig, g_quiet_case;
+static int g_nosig, g_quiet_case, g_no_eintr_stim;
 static uint64_t last_trace, case_inj0;
 static long last_iters;
 
@@ -864,7 +864,7 @@ static void stim_fn(void *v)
 		case 2:	chan_drain(a->c, a->s); break;
 		}
 	}
-	if (a->kind == 3)
+	if (a->kind == 3 && !g_no_eintr_stim)
 		vt_interrupt_wait();	/* a signal handler ran at this virtual instant: the kernel wait returns EINTR */
 	free(a);
 }
@@ -2104,6 +2104,7 @@ int main(int argc, char **argv)
 	base_fds = count_open_fds();
 
 	g_nosig = arg_flag(argc, argv, "--nosig");
+	g_no_eintr_stim = arg_flag(argc, argv, "--no-eintr-stim");
 	if (arg_flag(argc, argv, "--c15-eintr")) {
 		/* C15: for every k, the k-th kernel wait of the case fails with EINTR; the callback trace must not change */
 		long maxk = arg_ll(argc, argv, "--maxk", 80);
